@@ -221,6 +221,8 @@ MUST_FIRE = [
      "            utilities[mapping] = utilities_cand\n", "            utilities[mapping] = utilities_cand\n            utilities[is_labeled(y, missing_label=self.missing_label_)] = np.nan\n"),
     ("saw-inner-always-sample-candidates", ["C20"], ["R20.3"], P + "pool/multiannotator/_wrapper.py",
      "candidates_sq = mapping if mapping is not None else X_cand", "candidates_sq = X_cand"),
+    ("argmin-seed-truthiness", ["C06", "C18"], ["R6.7", "R18.1"], SEL,
+     "def rand_argmin(a, random_state=None, **argmin_kwargs):", "def rand_argmin(a, random_state=None, **argmin_kwargs):\n    random_state = random_state or None", 1),
     # ---- C03
     ("split-set-state-deleted", ["C03"], ["R3"], BZ,
      "        self.random_state_.set_state(random_state_state)\n", "        pass\n"),
